@@ -1565,6 +1565,7 @@ func (c *Ctx) readCycleRule(rule string) {
 	// the connection is over: the first instruction of a select arm that received the connection's exit
 	// signal (or its context's Done): nothing is left to read for
 	exitSeen := map[ssa.Instruction]bool{}
+	exitEdge := map[[2]interface{}]bool{} // CFG edges into such an arm (its body may be a bare return)
 	for _, fn := range p.Funcs {
 		if pkgOf(fn) != p.Root.Pkg || fn == r.FnLoop {
 			continue
@@ -1585,6 +1586,13 @@ func (c *Ctx) readCycleRule(rule string) {
 				}
 				if isLoadOf(a.State.Chan, r.FExiting) || isDone {
 					exitSeen[a.Body.Instrs[0]] = true
+					for _, pr := range a.Body.Preds {
+						for k, sc := range pr.Succs {
+							if sc == a.Body {
+								exitEdge[[2]interface{}{pr, k}] = true
+							}
+						}
+					}
 				}
 			}
 		})
@@ -1623,7 +1631,14 @@ func (c *Ctx) readCycleRule(rule string) {
 	}
 	atBoundary := func(in ssa.Instruction) bool { return p.boundary != nil && p.boundary[in] }
 	construct := fmt.Sprintf("%s: message taken from the socket reader", fname(r.FnLoop))
-	if wv := reachFromBlockUp(arm.Body, atBoundary, done); wv != nil {
+	srch := newIPSearch(atBoundary, done)
+	srch.up = true
+	srch.edgeOK = func(from *ssa.BasicBlock, k int) bool { return !exitEdge[[2]interface{}{from, k}] }
+	var wv ssa.Instruction
+	if srch.scan(arm.Body, 0, nil) {
+		wv = srch.found
+	}
+	if wv != nil {
 		c.bad(rule, construct, c.ipos(arm.Body.Instrs[0]), "a path handles the message and returns to the loop's select without restarting the socket reader, signalling loss or redialling: the connection is never read again (later responses, cancels and close frames go unnoticed)")
 	} else {
 		c.ok(rule, construct, c.ipos(arm.Body.Instrs[0]), "every path restarts the reader, signals loss, redials or leaves the loop")
